@@ -1606,16 +1606,23 @@ def remove_stns_sinex(sinex, sites):
         out.write(f"{solution_matrix_estimate[0]}\n")
         if solution_matrix_estimate[1].startswith('*'):
             out.write(f"{solution_matrix_estimate[1]}\n")
+        # Elements that are zero may be left out of the block: start every
+        # row of the triangle as zeros and put each value at its own column
+        for i in range(1, int(old_num_params) + 1):
+            if matrix == 'lower':
+                vcv[str(i)] = ['0'] * i
+            else:
+                vcv[str(i)] = ['0'] * (int(old_num_params) - i + 1)
         for line in solution_matrix_estimate:
             if line.startswith(' '):
                 cols = line.split()
                 row = cols[0]
+                if matrix == 'lower':
+                    first = int(cols[1]) - 1
+                else:
+                    first = int(cols[1]) - int(row)
                 for i in range(2, len(cols)):
-                    try:
-                        vcv[row].append(cols[i])
-                    except KeyError:
-                        vcv[row] = []
-                        vcv[row].append(cols[i])
+                    vcv[row][first + i - 2] = cols[i]
         block_end = solution_matrix_estimate[-1]
         del solution_matrix_estimate
         sub_vcv = {}
